@@ -68,7 +68,11 @@ struct BadCase {
 fn build(rng: &mut Rng) -> Option<BadCase> {
     let props = rnd_props(rng);
     let raw = rng.chance(1, 2);
-    let dict: u32 = if raw { rng.range(1, 64) as u32 } else { 4096 };
+    let dict: u32 = if raw {
+        *rng.pick(&[rng.clone().range(1, 64) as u32, 63, 64, 65, 127, 128, 255, 256])
+    } else {
+        *rng.pick(&[4096u32, 4096, 4097, 5000, 8191, 8192])
+    };
     let d = dict as u64;
     let pos_class = rng.usize_below(POS_CLASSES.len());
     let target: usize = match pos_class {
@@ -192,14 +196,22 @@ fn fam_lzma(ctx: &CaseCtx, cov: &mut Cov) -> CaseOut {
             Err(v) => (v, payload.clone()),
         }
     } else {
-        let mut file = sut::lzma_header(
-            bc.props.byte(),
-            *rng.pick(&[0u32, 4096, 100]),
-            Some(if with_marker { None } else { Some(fabricated_len) }),
-        );
+        let hdr_dict = if bc.dict == 4096 { *rng.pick(&[0u32, 4096, 100]) } else { bc.dict };
+        let mut file = sut::lzma_header(bc.props.byte(), hdr_dict, Some(if with_marker { None } else { Some(fabricated_len) }));
         file.extend_from_slice(&payload);
-        let o = sut::opts(UnpackedSize::ReadFromHeader, None, false);
-        (sut::decode(Entry::Lzma, &file, &o, reader, &sink, &obs).verdict, file)
+        // a generous memory limit must not change anything
+        let memlimit = if rng.chance(1, 3) { Some(*rng.pick(&[1usize << 20, 1 << 30, usize::MAX])) } else { None };
+        let o = sut::opts(UnpackedSize::ReadFromHeader, memlimit, false);
+        if rng.chance(1, 3) {
+            // through the streaming decoder, in random pieces (bytes held back at the cut)
+            cov.inc("window.circular(via Stream)", 0);
+            let k = rng.range(0, 6) as usize;
+            let cuts = super::streamdrv::cuts_random(&mut rng, file.len(), k);
+            let run = super::streamdrv::drive(&file, &o, &cuts, &Default::default(), &sink, &obs);
+            (run.verdict, file)
+        } else {
+            (sut::decode(Entry::Lzma, &file, &o, reader, &sink, &obs).verdict, file)
+        }
     };
     out.evals += 1;
     let o = obs.borrow();
